@@ -469,6 +469,37 @@ def gen_case(rng, k):
              ratio_as_float=bool(rng.random() < 0.5), fill_as_str=bool(rng.random() < 0.5))
     if region in ('free', 'above', 'near') and rng.random() < 0.35:
         c['update'] = gen_update(rng, c)
+    if k % 9 == 2 and nfill >= 2:
+        # quota: the fill ratios typed as whole numbers (python ints: ratio=[1], ratio=[1, 2]); one of them is then rewritten
+        # with a fractional value through its fitting parameter (what a retrieval does) and the chemistry re-initialised
+        c['ratio'] = [float(rng.integers(0 if i else 1, 4)) for i in range(nfill - 1)]
+        c['ratio_as_int'] = True
+        c['ratio_as_float'] = False
+        i = int(rng.integers(0, nfill - 1))
+        forced = dict(param='%s_%s' % (fills[i + 1], fills[0]), target=['ratio', i],
+                      value=float(10 ** rng.uniform(-2, 0.3)))
+        more = [u for u in (gen_update(rng, c) or []) if u['param'] != forced['param']][:1]
+        c['update'] = [forced] + (more if rng.random() < 0.5 else [])
+    if k % 9 == 5 and gases:
+        # quota: the history of a sampler - an accepted parameter set, then a proposal whose traces exceed one (rejected
+        # with InvalidChemistryException and caught), the object READ in that state, then an acceptable proposal again
+        c.pop('update', None)
+        j = int(rng.integers(0, len(gases)))
+        for t in range(len(gases)):
+            if gases[(j + t) % len(gases)]['kind'] in ('constant', 'twolayer', 'twopoint'):
+                j = (j + t) % len(gases)
+                break
+        else:
+            gases[j] = dict(mol=gases[j]['mol'], kind='constant', mix_ratio=gen_abund(rng))
+        g = gases[j]
+        field = 'mix_ratio' if g['kind'] == 'constant' else str(rng.choice(['mix_ratio_surface', 'mix_ratio_top']))
+        pname = g['mol'] if g['kind'] == 'constant' else g['mol'] + '_' + field.split('_')[-1]
+        over = dict(param=pname, target=['gas', j, field], value=float(rng.uniform(1.0 + 1e-6, 3.0)))
+        back = dict(param=pname, target=['gas', j, field], value=gen_abund(rng))
+        extra = [u for u in (gen_update(rng, c) or []) if u['param'] != pname][:1]
+        c['updates'] = [[over] + (extra if rng.random() < 0.3 else []), [back]]
+        if rng.random() < 0.3:
+            c['updates'].insert(1, [dict(over, value=float(rng.uniform(1.0 + 1e-6, 3.0)))])
     return c
 
 
@@ -554,19 +585,19 @@ def gen_update(rng, c):
     return [cand[int(i)] for i in idx]
 
 
-def apply_update(c, chem):
+def apply_update(c, chem, upd=None):
     """write the new values through the real setters; return the spec the model must now agree with"""
     import copy
-    c2 = copy.deepcopy({k: v for k, v in c.items() if k != 'update'})
+    c2 = copy.deepcopy({k: v for k, v in c.items() if k not in ('update', 'updates')})
     params = chem.fitting_parameters()
-    for u in c['update']:
+    for u in (c['update'] if upd is None else upd):
         params[u['param']][3](u['value'])
         t = u['target']
         if t[0] == 'ratio':
             c2['ratio'][int(t[1])] = u['value']
         else:
             c2['gases'][int(t[1])][t[2]] = u['value']
-    c2['region'] = str(c.get('region', 'free')) + '/updated'
+    c2['region'] = str(c.get('region', 'free')).split('/')[0] + '/updated'
     return c2
 
 
@@ -604,6 +635,11 @@ def eval_case(ctx, c):
         if c.get('update') and st.get('chem') is not None and st.get('built'):
             c2 = apply_update(c, st['chem'])
             judge(ctx, c2, dict(c, phase='after-update'), st)
+        elif c.get('updates') and st.get('chem') is not None and st.get('built'):
+            cur = c
+            for i, upd in enumerate(c['updates']):
+                cur = apply_update(cur, st['chem'], upd)
+                judge(ctx, cur, dict(c, phase='after-update-%d' % (i + 1)), st)
     finally:
         uninstall()
 
@@ -629,6 +665,8 @@ def judge(ctx, c, small, st):
                     chem = TaurexChemistry(fill_gases=fills[0] if c.get('fill_as_str') else list(fills))
                 elif len(fills) == 2 and c.get('ratio_as_float'):
                     chem = TaurexChemistry(fill_gases=list(fills), ratio=float(ratios[0]))
+                elif c.get('ratio_as_int'):
+                    chem = TaurexChemistry(fill_gases=list(fills), ratio=[int(r) for r in ratios])
                 else:
                     chem = TaurexChemistry(fill_gases=list(fills), ratio=list(ratios))
                 st['chem'] = chem
@@ -693,6 +731,8 @@ def judge(ctx, c, small, st):
         for g in gases:
             ctx.bucket('gas:' + g['kind'])
         ctx.bucket('layers:' + ('2-9' if n < 10 else '10-49' if n < 50 else '50-120'))
+        if c.get('ratio_as_int'):
+            ctx.bucket('fill-ratios-typed-as-ints:' + ('constructed' if region == 'free' else 'one rewritten with a fraction'))
         # ------------------------------------------------------------------ correspondence
         ctx.check_eq('TaurexChemistry outcome (ok / InvalidChemistryException / error) vs Chemistry.chemistry',
                      outcome.split(':')[0], m_out, small)
@@ -704,6 +744,10 @@ def judge(ctx, c, small, st):
                 ctx.check_close('mixProfile vs Chemistry.chemistry', mix.ravel(), np.array(m_rows).ravel(), small,
                                 rel=1e-10, abs_=1e-300)
                 ctx.check_close('muProfile vs Chemistry.muProfile', chem.muProfile, m_mu, small, rel=1e-10)
+        if outcome == 'ok' and m_out == 'ok':
+            st['accepted'] = dict(rows=np.array(m_rows, float), mu=np.array(m_mu, float), region=region)
+        elif outcome == 'invalid' and st.get('accepted') is not None:
+            exposed_after_rejection(ctx, chem, names, n, st['accepted'], small)
         if chem is not None:
             reg = sorted(c['registered'])
             dct = c['deactive']
@@ -837,6 +881,49 @@ def judge(ctx, c, small, st):
                     continue        # already reported as lookup-raises
                 if not np.array_equal(row, mix[names.index(nm)]):
                     ctx.violation('lookup-row', 'get_gas_mix_profile returns another gas\'s row', small, dict(name=nm))
+
+
+def exposed_after_rejection(ctx, chem, names, n, acc, small):
+    """a proposal whose traces exceed one was rejected on an object that had been initialised successfully before (what a
+    sampler does routinely, catching the exception): what the object EXPOSES in that state - mixProfile, muProfile, the
+    per-gas rows - must not be the negative fill of the rejected proposal.  Compared with the model's mixture of the last
+    ACCEPTED parameter set (Chemistry.chemistry), then judged by the property's own relations"""
+    ctx.bucket('history:read-after-rejected-proposal')
+    try:
+        mix = np.atleast_2d(np.asarray(chem.mixProfile, float))
+        mu = np.asarray(chem.muProfile, float)
+    except Exception as e:
+        ctx.violation('rejected-proposal:read-raises', 'reading mixProfile / muProfile after a rejected proposal raised %r'
+                      % (e,), small)
+        return
+    if ctx.check_eq('mixProfile shape after a rejected proposal', list(mix.shape), list(acc['rows'].shape), small):
+        ctx.check_close('mixProfile after a rejected proposal vs Chemistry.chemistry of the last accepted parameters',
+                        mix.ravel(), acc['rows'].ravel(), small, rel=1e-10, abs_=1e-300)
+        ctx.check_close('muProfile after a rejected proposal vs Chemistry.muProfile of the last accepted parameters', mu,
+                        acc['mu'], small, rel=1e-10)
+    if not np.all(np.isfinite(mix)) or mix.min() < 0:
+        ctx.violation('rejected-proposal:negative-fill-exposed', 'the traces exceeded one and the proposal was rejected, yet '
+                      'the chemistry now exposes the negative fill of the rejected proposal (mixProfile has negative entries)',
+                      small, dict(min=float(np.nanmin(mix)), fill_row0=mix[0][:5]))
+        return
+    if mix.shape == (len(names), n):
+        if np.max(np.abs(mix.sum(axis=0) - 1.0)) > 1e-12:
+            ctx.violation('rejected-proposal:sum-not-one', 'after a rejected proposal the exposed mixing ratios do not sum to '
+                          'one in every layer', small, dict(err=float(np.max(np.abs(mix.sum(axis=0) - 1.0)))))
+        mu_o = np.zeros(n)
+        for row, nm in zip(mix, names):
+            mu_o = mu_o + row * oracle_mass(nm)
+        if not C.close(mu, mu_o, rel=1e-12):
+            ctx.violation('rejected-proposal:mu-not-weighted-sum', 'after a rejected proposal muProfile is not the '
+                          'abundance-weighted sum of molecular masses of the exposed mixProfile', small)
+        for j, nm in enumerate(names):
+            try:
+                row = np.asarray(chem.get_gas_mix_profile(nm), float)
+            except Exception:
+                continue
+            if not np.array_equal(row, mix[j]):
+                ctx.violation('rejected-proposal:lookup-row', 'get_gas_mix_profile after a rejected proposal is not the row of '
+                              'the exposed mixProfile', small, dict(name=nm))
 
 
 def malformed(ctx):
